@@ -37,6 +37,8 @@ impl<T> VStream<T> {
     { unimplemented!() }
 }
 pub fn drop<T>(_t: T) {}
+pub assume_specification<T: Copy> [Option::<&T>::copied] (o: Option<&T>) -> (r: Option<T>)
+    ensures r == (match o { Some(v) => Some(*v), None => None });
 
 /// format!(lit, args..) (N9): text uninterpreted, determined by the literal and the arguments
 pub uninterp spec fn fmt0_spec(id: u64) -> Seq<char>;
@@ -91,6 +93,12 @@ impl VMap {
     pub fn is_empty(&self) -> (r: bool) ensures r <==> self@ =~= Map::<Seq<char>, usize>::empty(), true { unimplemented!() }
     #[verifier::external_body]
     pub fn contains_key(&self, k: &str) -> (r: bool) ensures r == self@.contains_key(k@) { unimplemented!() }
+    #[verifier::external_body]
+    pub fn get(&self, k: &str) -> (r: Option<&usize>)
+        ensures
+            self@.contains_key(k@) ==> (r matches Some(v) && *v == self@[k@]),
+            !self@.contains_key(k@) ==> r is None,
+    { unimplemented!() }
     #[verifier::external_body]
     pub fn insert(&mut self, k: String, v: usize) -> (r: Option<usize>)
         ensures final(self)@ == old(self)@.insert(k@, v),
